@@ -16,6 +16,35 @@ TRUSTED = ("Trusted base: the stdlib ast parser; the resolver of gfaverif/model.
            "named structural clauses, not the behaviour as a whole.")
 
 CHECKS = {
+    "C04": dict(
+        technique="regular-language equivalence on automata built from the "
+                  "validators' regular expressions with Python re semantics, "
+                  "plus decision-table extraction of the tag / cross-field / "
+                  "document validators (static analysis)",
+        engine="RX+TABLE+CODEC",
+        design_ref="DESIGN.md section 3.7, 3.8 and section 4, C04",
+        text="Partial. Decides for ALL strings (DFA equality, shortest "
+             "witness on failure) that validate_encoded of each of 26 datatype "
+             "modules accepts exactly the reference grammar, and that the tag "
+             "splitter and tag-name test do; that every validating decode() "
+             "checks the syntax before converting (so int()/float()/unhexlify "
+             "leniency cannot leak in); that whatever class a decoder returns "
+             "passes validate_decoded; that record arity, field datatypes and "
+             "predefined tag types equal the reference table and every "
+             "datatype has a complete module; exhaustive decision tables of "
+             "_initialize_tag (uniqueness, predefined type, name syntax, per "
+             "level), of the positional-field count check, of LN-vs-length, "
+             "path list sizes and the `$`-only-on-last-position validators of "
+             "E and F lines; and that Gfa.validate runs the four structural "
+             "validators plus rGFA validation exactly for the rgfa dialect and "
+             "is called by Gfa()/read_file at vlevel >= 1.",
+        note="Undecided: acceptance of whole concrete documents; the "
+             "hand-written alignment scanner used by alignment_gfa2; JSON "
+             "well-formedness (json.loads is a non-regular residual, only its "
+             "presence is checked); reference resolution on concrete graphs. "
+             "The automata are cross-checked against stdlib re on random "
+             "strings at every run. Known finding: scalar JSON values. "
+             + TRUSTED),
     "C10": dict(
         technique="interprocedural may-write effect and alias analysis "
                   "(whole-program fixpoint over the syntax trees, "
@@ -120,6 +149,30 @@ CHECKS = {
              "order of a concrete document (the tables make each single "
              "decision right; their composition over arrival orders is not "
              "enumerated), the dialect (rGFA) cross-checks. " + TRUSTED),
+    "C20": dict(
+        technique="regular-language inclusion/equality (validator and "
+                  "encoder-output automata), decision tables of the default "
+                  "datatype and integer subtype selection on all boundary "
+                  "values (static analysis)",
+        engine="RX+TABLE+CODEC",
+        design_ref="DESIGN.md section 4, C20",
+        text="Partial. Decides: the seven tag validators accept exactly the "
+             "reference grammars (all strings); the default datatype table "
+             "(int/float/str/dict/int-list/float-list/mixed list/NumericArray/"
+             "ByteArray/FieldArray); SUBTYPE_RANGE and the smallest-subtype "
+             "table of integer_type on every pair of boundary values "
+             "(2^k-1, 2^k, 2^k+1, negatives), compute_subtype and the range "
+             "check of from_string; the output language of each encoder's "
+             "Python primitive (str(int), repr(float), json.dumps, hex, "
+             "str(NumericArray)) is included in the validated language, and "
+             "the values spelled outside it (non-finite floats, empty arrays) "
+             "are reported by validate_decoded; decoder classes are accepted "
+             "by the encoder; field_to_s validates what it writes exactly at "
+             "vlevel >= 2.",
+        note="Undecided: decode(encode(v)) == v on concrete values (a value "
+             "law). The output languages of the CPython primitives are "
+             "transcribed in rules/c20.py and trusted. Known finding: scalar "
+             "JSON values. " + TRUSTED),
 }
 
 NOT_APPLICABLE = {
@@ -182,6 +235,16 @@ def main():
                                    if "EFFECT" in CHECKS[p]["engine"]],
              "kind_free_text": "interprocedural may-write effect / alias "
                                "analysis with provenance chains"},
+            {"name": "RX", "path": "gfaverif/rx.py",
+             "serves_properties": [p for p in sorted(CHECKS)
+                                   if "RX" in CHECKS[p]["engine"]],
+             "kind_free_text": "regex -> NFA -> DFA with Python re semantics; "
+                               "equality / inclusion with shortest witness"},
+            {"name": "CODEC", "path": "gfaverif/codec.py",
+             "serves_properties": [p for p in sorted(CHECKS)
+                                   if "CODEC" in CHECKS[p]["engine"]],
+             "kind_free_text": "accepted languages, returned classes and "
+                               "accepted classes of the datatype modules"},
             {"name": "TABLE", "path": "gfaverif/tables.py",
              "serves_properties": [p for p in sorted(CHECKS)
                                    if "TABLE" in CHECKS[p]["engine"]],
